@@ -58,6 +58,24 @@ func (m *verifMutex) Lock() {
 	VerifHeld++
 }
 
+// TryLock mirrors sync.Mutex.TryLock (non-blocking, not a scheduling point); the repository does not use it,
+// but a change under test might.
+func (m *verifMutex) TryLock() bool {
+	if m.holder != 0 {
+		return false
+	}
+	if VS == nil {
+		m.holder = -1
+		if VerifLockLog != nil {
+			VerifLockLog(m, true)
+		}
+	} else {
+		m.holder = VS.cur
+	}
+	VerifHeld++
+	return true
+}
+
 func (m *verifMutex) Unlock() {
 	if m.holder == 0 {
 		panic("verif: Unlock of an unlocked mutex")
